@@ -85,7 +85,55 @@ func (c *Config) Merge(from interface{}, options ...Option) error {
 		// settings report the source of the first value merged into it
 		c.metadata = opts.meta
 	}
+	opts.mergeTargets = map[*cfgDynamic]*Config{}
+	resolveMergeTargets(opts, c, other)
 	return mergeConfig(opts, c, other)
+}
+
+// resolveMergeTargets evaluates the references stored in to that meet an
+// object or list of from, before the merge modifies anything. The merge
+// continues with private copies of the values found (see mergeValues): the
+// settings referenced are not modified, and what a reference yields does not
+// depend on the order the settings get merged in.
+func resolveMergeTargets(opts *options, to, from *Config) {
+	if to.fields == nil || from.fields == nil {
+		return
+	}
+
+	visit := func(old, v value) {
+		var subOld *Config
+		switch o := old.(type) {
+		case cfgSub:
+			subOld = o.c
+		case *cfgDynamic:
+			if _, err := v.toConfig(opts); err != nil {
+				return
+			}
+			ref, err := o.toConfig(opts)
+			if err != nil {
+				return
+			}
+			subOld = cfgSub{ref}.cpy(o.Context()).(cfgSub).c
+			opts.mergeTargets[o] = subOld
+		default:
+			return
+		}
+		if subV, err := v.toConfig(opts); err == nil {
+			resolveMergeTargets(opts, subOld, subV)
+		}
+	}
+
+	for k, v := range from.fields.dict() {
+		if old, ok := to.fields.get(k); ok {
+			visit(old, v)
+		}
+	}
+	arr := to.fields.array()
+	for i, v := range from.fields.array() {
+		if i < len(arr) {
+			visit(arr[i], v)
+		}
+	}
 }
 
 func mergeConfig(opts *options, to, from *Config) Error {
@@ -252,12 +300,22 @@ func mergeValues(opts *options, old, v value) (value, Error) {
 
 	// check if new and old value evaluate to sub-configurations. If one is no
 	// sub-configuration, use new value only.
-	subOld, err := old.toConfig(opts)
+	subV, err := v.toConfig(opts)
 	if err != nil {
 		return v, nil
 	}
-	subV, err := v.toConfig(opts)
-	if err != nil {
+	var subOld *Config
+	if d, dynamic := old.(*cfgDynamic); dynamic {
+		// never merge into the value of a reference itself: it is a setting
+		// of its own (or shared with other users of the reference)
+		if subOld = opts.mergeTargets[d]; subOld == nil {
+			ref, err := d.toConfig(opts)
+			if err != nil {
+				return v, nil
+			}
+			subOld = cfgSub{ref}.cpy(d.Context()).(cfgSub).c
+		}
+	} else if subOld, err = old.toConfig(opts); err != nil {
 		return v, nil
 	}
 
